@@ -27,6 +27,32 @@ fn auth_path(s: &str, cookie: bool, r: impl Fn(&BearerToken) -> Vec<String>) -> 
     verdict(res, r)
 }
 
+/// the parameter decoders generated servers and macro servers use: one / optional / list, header and path-query flavours
+fn decoder_paths<T>(s: &str, r: impl Fn(&T) -> Vec<String> + Copy, out: &mut serde_json::Map<String, Value>)
+where
+    T: conjure_object::FromPlain + std::str::FromStr,
+    <T as conjure_object::FromPlain>::Err: std::error::Error + Sync + Send + 'static,
+    <T as std::str::FromStr>::Err: std::error::Error + Sync + Send + 'static,
+{
+    use conjure_http::server::conjure::{FromPlainDecoder, FromPlainOptionDecoder, FromPlainSeqDecoder};
+    use conjure_http::server::{DecodeHeader, DecodeParam, FromStrDecoder, FromStrOptionDecoder, FromStrSeqDecoder};
+    let rt = conjure_http::server::ConjureRuntime::new();
+    let opt = |x: Result<Option<T>, conjure_error::Error>| x.and_then(|o| o.ok_or_else(|| conjure_error::Error::internal_safe("absent")));
+    let first = |x: Result<Vec<T>, conjure_error::Error>| x.and_then(|mut v| if v.len() == 1 { Ok(v.remove(0)) } else { Err(conjure_error::Error::internal_safe("count")) });
+    out.insert("param_plain".into(), verdict(<FromPlainDecoder as DecodeParam<T>>::decode(&rt, [s]), r));
+    out.insert("param_plain_opt".into(), verdict(opt(<FromPlainOptionDecoder as DecodeParam<Option<T>>>::decode(&rt, [s])), r));
+    out.insert("param_plain_seq".into(), verdict(first(<FromPlainSeqDecoder<T> as DecodeParam<Vec<T>>>::decode(&rt, [s])), r));
+    out.insert("param_str".into(), verdict(<FromStrDecoder as DecodeParam<T>>::decode(&rt, [s]), r));
+    out.insert("param_str_opt".into(), verdict(opt(<FromStrOptionDecoder as DecodeParam<Option<T>>>::decode(&rt, [s])), r));
+    out.insert("param_str_seq".into(), verdict(first(<FromStrSeqDecoder<T> as DecodeParam<Vec<T>>>::decode(&rt, [s])), r));
+    if let Ok(hv) = http::HeaderValue::from_bytes(s.as_bytes()) {
+        out.insert("header_plain".into(), verdict(<FromPlainDecoder as DecodeHeader<T>>::decode(&rt, [&hv]), r));
+        out.insert("header_plain_opt".into(), verdict(opt(<FromPlainOptionDecoder as DecodeHeader<Option<T>>>::decode(&rt, [&hv])), r));
+        out.insert("header_str".into(), verdict(<FromStrDecoder as DecodeHeader<T>>::decode(&rt, [&hv]), r));
+        out.insert("header_str_opt".into(), verdict(opt(<FromStrOptionDecoder as DecodeHeader<Option<T>>>::decode(&rt, [&hv])), r));
+    }
+}
+
 fn token_paths(s: &str) -> Value {
     let doc = serde_json::to_string(s).unwrap();
     let smile = conjure_serde::smile::to_vec(&s).unwrap();
@@ -34,7 +60,9 @@ fn token_paths(s: &str) -> Value {
         vec![t.as_str().to_string(), t.to_plain(), serde_json::from_str::<String>(&conjure_serde::json::to_string(t).unwrap()).unwrap(),
              AsRef::<str>::as_ref(t).to_string(), t.clone().into_string()]
     };
-    json!({
+    let mut dec = serde_json::Map::new();
+    decoder_paths::<BearerToken>(s, r, &mut dec);
+    let mut v = json!({
         "from_str": verdict(BearerToken::from_str(s), r),
         "new": verdict(BearerToken::new(s), r),
         "json_client": verdict(conjure_serde::json::client_from_str::<BearerToken>(&doc), r),
@@ -45,7 +73,9 @@ fn token_paths(s: &str) -> Value {
         "auth_header": auth_path(s, false, r),
         "auth_cookie": auth_path(s, true, r),
         "debug_redacted": BearerToken::from_str(s).map(|t| !format!("{t:?}").contains(s) || s == "REDACTED" || "BearerToken(\"REDACTED\")".contains(s)).unwrap_or(true),
-    })
+    });
+    v["decoders"] = Value::Object(dec);
+    v
 }
 
 fn rid_paths(s: &str) -> Value {
@@ -58,7 +88,9 @@ fn rid_paths(s: &str) -> Value {
     let comps = ResourceIdentifier::from_str(s).ok().map(|t| {
         json!([t.service().as_bytes(), t.instance().as_bytes(), t.type_().as_bytes(), t.locator().as_bytes()])
     });
-    json!({
+    let mut dec = serde_json::Map::new();
+    decoder_paths::<ResourceIdentifier>(s, r, &mut dec);
+    let mut v = json!({
         "from_str": verdict(ResourceIdentifier::from_str(s), r),
         "new": verdict(ResourceIdentifier::new(s), r),
         "json_client": verdict(conjure_serde::json::client_from_str::<ResourceIdentifier>(&doc), r),
@@ -67,7 +99,9 @@ fn rid_paths(s: &str) -> Value {
         "any": verdict(Any::new(s).unwrap().deserialize_into::<ResourceIdentifier>(), r),
         "from_plain": verdict(ResourceIdentifier::from_plain(s), r),
         "components": comps,
-    })
+    });
+    v["decoders"] = Value::Object(dec);
+    v
 }
 
 /// stdin: {"id", "mode": "token"|"rid"|"components", "s": bytes, "parts": [bytes x4]}
